@@ -313,6 +313,8 @@ def harness(config, flavour, name='xrlmon', extra_src=(), extra_flags=(), cxx=Fa
     """compile a harness program (harness/<name>.c[pp]) against lib(config, flavour)"""
     if flavour == 'meson':
         return harness_meson(config, name)
+    if flavour == 'meson-tsan':
+        return harness_meson(config, name, sanitize='thread')
     L = lib(config, flavour)
     st = sigtab()
     hh = _harness_hash([os.path.join(HARNESS, name + ('.cpp' if cxx else '.c'))] + [os.path.join(HARNESS, s) for s in extra_src], ' '.join(extra_flags) + (compiler or ''))
@@ -418,11 +420,12 @@ def stale_inline(config):
     return os.path.join(_target('stale-inline-' + config, mk), 'xrayglob_inline.c')
 
 
-def meson_lib(config, dirty=False):
+def meson_lib(config, dirty=False, sanitize=None):
     """the library exactly as the project's own build system makes it (its compiler arguments, its visibility settings, its generator run):
     a copy of the working tree (without .git) is built with meson in the cache; returns dict(dir, so, incs).  The hook guard is NOT defined.
     dirty: the copy additionally holds what an earlier in-tree (autotools) build leaves behind and .gitignore hides - a stale
-    src/xrayglob_inline.c generated from OTHER data, stale objects - which the build must not pick up"""
+    src/xrayglob_inline.c generated from OTHER data, stale objects - which the build must not pick up.
+    sanitize='thread': the same project build with meson's own -Db_sanitize=thread (the project's flags and optimisation level, instrumented)"""
     stale = stale_inline(config) if dirty else None
 
     def mk(d):
@@ -437,11 +440,12 @@ def meson_lib(config, dirty=False):
                 os.makedirs(os.path.dirname(os.path.join(src, o)), exist_ok=True)
                 open(os.path.join(src, o), 'wb').write(b'\x7fELF stale object of an earlier build\n')
         b = os.path.join(d, 'b')
-        _run(['meson', 'setup', b, src, '-Dpython-bindings=disabled', '-Dpython-numpy-bindings=disabled', '-Dfortran-bindings=disabled'], timeout=1800)
+        _run(['meson', 'setup', b, src, '-Dpython-bindings=disabled', '-Dpython-numpy-bindings=disabled', '-Dfortran-bindings=disabled'] +
+             (['-Db_sanitize=' + sanitize, '-Db_lundef=false'] if sanitize else []), timeout=1800)
         _run(['meson', 'compile', '-C', b, 'xrl'], timeout=3600)
         if not os.path.exists(os.path.join(b, 'src', 'libxrl.so')):
             raise BuildError('meson did not produce src/libxrl.so')
-    d = _target('lib-%s-meson%s' % (config, '-dirty' if dirty else ''), mk)
+    d = _target('lib-%s-meson%s%s' % (config, '-dirty' if dirty else '', '-' + sanitize if sanitize else ''), mk)
     return dict(dir=os.path.join(d, 'b', 'src'), so=os.path.join(d, 'b', 'src', 'libxrl.so'), cfgdir=os.path.join(d, 'b'))
 
 
@@ -495,17 +499,17 @@ def hostile_host(config):
     return dict(so=os.path.join(d, 'libhost.so'), names=json.load(open(os.path.join(d, 'names.json'))))
 
 
-def harness_meson(config, name='xrlmon'):
+def harness_meson(config, name='xrlmon', sanitize=None):
     """harness program linked against meson_lib(config) (shared); the monitor sources are compiled with the plain flags"""
-    L = meson_lib(config)
+    L = meson_lib(config, sanitize=sanitize)
     st = sigtab()
     hh = _harness_hash([os.path.join(HARNESS, name + '.c')])
 
     def mk(d):
-        cmd = ['gcc', '-O2', '-g'] + CORE + ['-I' + L['cfgdir'], '-I' + os.path.join(REPO, 'src'), '-I' + os.path.join(REPO, 'include'), '-I' + REPO, '-I' + st, '-I' + HARNESS,
+        cmd = ['gcc', '-O2', '-g'] + (['-fsanitize=' + sanitize] if sanitize else []) + CORE + ['-I' + L['cfgdir'], '-I' + os.path.join(REPO, 'src'), '-I' + os.path.join(REPO, 'include'), '-I' + REPO, '-I' + st, '-I' + HARNESS,
                os.path.join(HARNESS, name + '.c'), '-o', os.path.join(d, name), '-L' + L['dir'], '-lxrl', '-Wl,-rpath,' + L['dir'], '-lm', '-lpthread', '-ldl']
         _run(cmd)
-    d = _target('hm-%s-%s-%s' % (name, config, hh), mk)
+    d = _target('hm-%s-%s%s-%s' % (name, config, '-' + sanitize if sanitize else '', hh), mk)
     return os.path.join(d, name)
 
 
